@@ -251,10 +251,7 @@ def access_case(rng):
             i = rng.choice([0, max(size - 1, 0), size, size + 1, "MAX", "HALF", 2**31, 2**32, rng.randint(0, size + 2)])
             e.ops.append(rng.choice([f"arr_get a {i}", f"dupat a {i} g"]))
         elif r < 0.9:
-            # index == size is the known finding (corpus); not in the random stream
-            i = rng.choice([0, max(size - 1, 0), size + 1, "MAX", 2**32, rng.randint(0, size + 2)])
-            if i == size:
-                i = size + 1
+            i = rng.choice([0, max(size - 1, 0), size, size + 1, "MAX", 2**32, rng.randint(0, size + 2)])
             e.ops.append(f"arr_remove a {i}")
             if isinstance(i, int) and i < size:
                 size -= 1
